@@ -15,7 +15,7 @@ func zzWalk12(buf []byte, aware bool, cidLen int) (status int, n int, emptyLast 
 	off := 0
 	for off != ln {
 		hs := 13
-		if aware && buf[off] == 24 {
+		if aware && buf[off] == 25 {
 			hs += cidLen
 		}
 		rem := ln - off
